@@ -340,23 +340,37 @@ func (e *Engine) checkQuotaPreemption(st *Step, victims []*world.Alloc, victimAp
 			}
 		}
 	}
-	// the amount: only judged when a single queue can have triggered for all victims
-	if len(covering) == 1 {
-		for top := range covering {
-			q := pre.Queues[top]
-			c := res.R{}
-			for _, v := range victims {
-				c.AddTo(v.Res)
+	// the amount: which queue triggered is not observable without reading message texts, so the bound is the largest
+	// excess of any managed queue on the victims' paths (sound upper bound); judged per leaf of the victims
+	perLeaf := map[string]res.R{}
+	for _, v := range victims {
+		if va := pre.Apps[victimApp[v.Key]]; va != nil {
+			if perLeaf[va.Queue] == nil {
+				perLeaf[va.Queue] = res.R{}
 			}
-			for t, m := range q.Max {
-				excess := q.Allocated[t] - q.Preempting[t] - m
-				if excess > 0 && c[t] > excess {
-					e.violate("C08", "quota-preemption-claims-too-much", "", fmt.Sprintf("quota preemption below %s claims %d %s, the queue exceeds its maximum by %d", top, c[t], t, excess))
-				}
-			}
-			e.obs("c08.quota_claims_checked", 1)
+			perLeaf[va.Queue].AddTo(v.Res)
 		}
 	}
+	for leaf, c := range perLeaf {
+		bound := res.R{}
+		for _, q := range pathOf(pre, leaf) {
+			if !q.Managed {
+				continue
+			}
+			for t, m := range q.Max {
+				if ex := q.Allocated[t] - q.Preempting[t] - m; ex > bound[t] {
+					bound[t] = ex
+				}
+			}
+		}
+		for t, ex := range bound {
+			if ex > 0 && c[t] > ex {
+				e.violate("C08", "quota-preemption-claims-too-much", "", fmt.Sprintf("quota preemption in %s claims %d %s, no managed queue on its path exceeds its maximum by more than %d", leaf, c[t], t, ex))
+			}
+		}
+		e.obs("c08.quota_claims_checked", 1)
+	}
+	_ = covering
 }
 
 // checkPreemptingBooks: preempting(q) equals the resources of the live allocations below q flagged preempted.
